@@ -226,11 +226,12 @@ CHECKS = {
             'DESIGN.md §3 C19'),
     'C20': ('model_checking',
             'explicit-state breadth-first search over the module state of the library (all memoisation tables hashed by key and value, global switches, numpy error state) with one real API call per transition, to closure or a reported state cap; layout enumeration per array argument; hash-seed sweep in subprocesses',
-            'States are snapshots of every module-level cache and switch; from each state every symbol of a ~47-call alphabet (spectrum methods, '
+            'States are snapshots of every module-level cache and switch; from each state every symbol of a ~90-call alphabet (spectrum methods, '
             'sampling 1-4 D on colliding grids, inbreeding, data dictionaries, low-pass helpers, likelihoods, objective function, grid '
             'optimiser, Fisher/LRT calls with two models, integrators 1-5 populations incl. T=0, density operations, demes import) is executed '
             'on freshly built arguments; states are merged by canonical hash so the search closes over histories of any length (quick: closure '
-            'over a 15-symbol alphabet with a state cap, all length-2 sequences over the full alphabet). On every transition the result must '
+            'over the 24 symbols that own a memo table or module-level record with a state cap of 600, and all length-2 sequences over the full '
+            'alphabet; thorough: cap 1500, length-3 sequences over the full alphabet starting from those 24 symbols, 9 hash seeds). On every transition the result must '
             'equal the fresh-state value (bitwise; 8 ulp for BLAS-backed sampling), every argument must be bitwise unchanged (arrays, masks, '
             'lists, dicts) and results must not alias inputs. Every array argument is also passed as Fortran, transposed, strided, reversed and '
             'read-only memory. Fresh values and all length-2 sequences are recomputed under 4-5 PYTHONHASHSEED values in new interpreters.',
